@@ -1,5 +1,427 @@
-//! C08 harness — to be written (see /verif/mc/HARNESS_GUIDE.md).
-fn main() {
-    eprintln!("MACHINERY-ERROR: harness C08 not built yet");
-    std::process::exit(2);
+//! C08 — Lasso and elastic net terminate near the optimum of their stated objective.
+//!
+//! E1 over (design matrix, target, alpha, l1_ratio, tol, normalisation, target shift): every fit of
+//! the real `Lasso` / `ElasticNet` is judged against the EXACT minimum of the stated objective
+//! (exhaustive enumeration of the 3^p sign patterns, `refs::exact_min`). The estimators draw no random
+//! numbers, so there is no schedule dimension.
+//!
+//! Input classes in which the unchanged library is known to loop (constant target; a constant column
+//! whose one-pass variance is not exactly zero; elastic net with a non-zero target mean) are
+//! enumerated by dedicated jobs whose library calls run under a watchdog thread, so that a loop is
+//! an ordinary violation with a site key instead of a lost worker. Everything else runs unprotected:
+//! a loop there is caught by the driver's per-case deadline (termination clause).
+
+mod cases;
+mod families;
+mod refs;
+
+use cases::{case, Cfg};
+use mc_core::oracle::Mat;
+use mc_core::{self as mc, json, Harness, Job, Plan, Tier, Value};
+
+struct C08;
+
+pub const ALPHAS: [f64; 4] = [0.1, 1.0, 1e-3, 10.0];
+pub const TOLS: [f64; 3] = [1e-4, 1e-3, 1e-6];
+pub const SHIFTS: [f64; 3] = [0.0, 10.0, 1e4];
+pub const L1_RATIOS: [f64; 3] = [0.5, 1.0, 0.25];
+/// a fit of the sizes used here takes well under a millisecond; one that has not returned after
+/// this long is looping (every such verdict is re-confirmed twice by the driver's replays)
+pub const WATCHDOG_MS: u64 = 1000;
+
+/// The X alphabet (Σ4 mapped by the seed's affine map) and the y alphabet.
+fn x_alphabet(seed: u64) -> [f64; 4] {
+    let (a, b) = [(1.0, 0.0), (3.0, 0.0), (0.5, 0.25), (-1.0, 0.0), (0.25, -1.0), (10.0, 0.0), (0.125, 0.0), (7.0, 1.0)][(seed % 8) as usize];
+    [0.0, 1.0, -1.0, 2.0].map(|v: f64| a * v + b)
 }
+
+fn y_alphabet(seed: u64) -> [f64; 4] {
+    let (a, b) = [(1.0, 0.0), (1.0, 1.0), (-1.0, 0.0), (2.0, 0.0), (0.5, 0.0), (1.0, -3.0), (4.0, 0.0), (-0.5, 0.0)][((seed / 8) % 8) as usize];
+    [0.0, 1.0, -2.0, 3.0].map(|v: f64| a * v + b)
+}
+
+fn watch_of(job: &Job) -> Option<u64> {
+    if job.b("watch") {
+        Some(WATCHDOG_MS)
+    } else {
+        None
+    }
+}
+
+/// (tol, shift) according to the job's configuration set.
+fn pick_tol_shift(job: &Job) -> (f64, f64) {
+    match job.s("cfg") {
+        "full" => (mc::pick(&TOLS), mc::pick(&SHIFTS)),
+        // tolerance and shift paired (3 combinations instead of 9)
+        "diag" => {
+            let i = mc::choose(3);
+            (TOLS[i], SHIFTS[i])
+        }
+        // no shift (zero-sum targets stay zero-sum)
+        "noshift" => (mc::pick(&TOLS), 0.0),
+        other => panic!("unknown cfg set {}", other),
+    }
+}
+
+fn has_constant_column(x: &Mat) -> bool {
+    let p = x[0].len();
+    (0..p).any(|j| x.iter().all(|r| r[j] == x[0][j]))
+}
+
+fn run_lattice(job: &Job, seed: u64) {
+    let (p, n) = (job.u("p"), job.u("n"));
+    let xa = x_alphabet(seed);
+    let ya = y_alphabet(seed);
+    let na = job.u("xalpha");
+    let pre: Vec<usize> = job.params["pre"].as_array().map(|a| a.iter().map(|v| v.as_u64().unwrap() as usize).collect()).unwrap_or_default();
+    let mut x: Mat = vec![vec![0.0; p]; n];
+    for k in 0..n * p {
+        let idx = if k < pre.len() { pre[k] } else { mc::choose(na) };
+        // column-major fill: the leading (job-fixing) entries belong to the first column
+        x[k % n][k / n] = xa[idx];
+    }
+    if has_constant_column(&x) {
+        mc::count("lattice_x_with_constant_column_skipped");
+        return;
+    }
+    let y: Vec<f64> = match job.s("ymode") {
+        "free" => (0..n).map(|_| mc::pick(&ya)).collect(),
+        "zerosum" => {
+            let mut y: Vec<f64> = (0..n - 1).map(|_| mc::pick(&ya)).collect();
+            y.push(-y.iter().sum::<f64>());
+            y
+        }
+        other => panic!("unknown ymode {}", other),
+    };
+    let enet = job.s("est") == "enet";
+    let alpha = mc::pick(&ALPHAS);
+    let normalize = mc::pick(&[true, false]);
+    let l1_ratio = if enet { Some(mc::pick(&L1_RATIOS)) } else { None };
+    let (tol, shift) = pick_tol_shift(job);
+    case(&x, &y, &Cfg { alpha, l1_ratio, normalize, tol, shift }, watch_of(job), false);
+}
+
+fn run_family(job: &Job, seed: u64) {
+    let p = job.u("p");
+    let fam = job.u("fam");
+    let ns: Vec<usize> = job.params["ns"].as_array().unwrap().iter().map(|v| v.as_u64().unwrap() as usize).collect();
+    let n = mc::pick(&ns);
+    let scale = mc::choose(families::N_SCALES);
+    let offset = mc::choose(families::N_OFFSETS);
+    let beta = mc::choose(families::N_BETAS);
+    let (x, y) = families::build(fam, n, p, scale, offset, beta, seed);
+    if has_constant_column(&x) {
+        mc::count("family_x_with_constant_column_skipped");
+        return;
+    }
+    let y = if job.b("zero_mean") { families::zero_mean(&y) } else { y };
+    let enet = job.s("est") == "enet";
+    let normalize = mc::pick(&[true, false]);
+    let l1_ratio = if enet { Some(mc::pick(&L1_RATIOS)) } else { None };
+    // the largest alpha is chosen by the oracle so that every coefficient of the minimiser is zero
+    let ai = mc::choose(4);
+    let alpha = if ai < 3 {
+        ALPHAS[ai]
+    } else {
+        let des = refs::design(&x, normalize);
+        let (yc, _) = refs::centre(&y);
+        let g = (0..p).map(|j| des.z.iter().zip(&yc).map(|(r, v)| r[j] * v).sum::<f64>().abs()).fold(0.0, f64::max);
+        // l1 = n alpha l1_ratio >= 2 max|Z'yc| zeroes everything; stay inside the quantifier's alpha range
+        (1.25 * 2.0 * g / n as f64 / l1_ratio.unwrap_or(1.0)).max(0.01)
+    };
+    let (tol, shift) = pick_tol_shift(job);
+    case(&x, &y, &Cfg { alpha, l1_ratio, normalize, tol, shift }, watch_of(job), false);
+}
+
+/// Constant targets (the minimiser is w = 0, the minimum 0): a small grid under the watchdog.
+fn run_ctarget(job: &Job, seed: u64) {
+    let xa = x_alphabet(seed);
+    let designs: [&[&[usize]]; 4] = [&[&[0], &[1]], &[&[0, 1], &[1, 1], &[2, 3]], &[&[0], &[1], &[2]], &[&[1, 1], &[0, 3], &[2, 0], &[3, 2]]];
+    let x: Mat = designs[job.u("design")].iter().map(|r| r.iter().map(|i| xa[*i]).collect()).collect();
+    let n = x.len();
+    let enet = job.s("est") == "enet";
+    let normalize = job.b("normalize");
+    let c = mc::pick(&[0.0, 1.0, -2.5, 1e4]);
+    let alpha = mc::pick(&[0.1, 10.0, 1e-3, 1.0]);
+    let l1_ratio = if enet { Some(0.5) } else { None };
+    let y = vec![c; n];
+    case(&x, &y, &Cfg { alpha, l1_ratio, normalize, tol: 1e-4, shift: 0.0 }, Some(WATCHDOG_MS), true);
+    mc::count("constant_target_cases");
+}
+
+mod invalid {
+    //! "Lasso reports invalid settings as errors rather than panicking or looping"
+    use super::*;
+    use crate::cases::FitOut;
+
+    pub const ALPHA: [f64; 4] = [0.1, -1.0, -1e-3, -1e300];
+    pub const TOL: [f64; 4] = [1e-4, 0.0, -1e-4, -0.0];
+    pub const MAX_ITER: [usize; 2] = [1000, 0];
+    /// (n, p); the thorough tier uses all, the quick tier the first `N_SHAPES_QUICK`
+    pub const SHAPES: [(usize, usize); 14] = [(3, 1), (4, 2), (1, 1), (2, 2), (1, 2), (6, 1), (7, 2), (3, 3), (2, 3), (5, 3), (1, 3), (8, 3), (5, 1), (12, 2)];
+    pub const N_SHAPES_QUICK: usize = 6;
+    pub const YLEN_DELTA: [i64; 4] = [0, -1, 1, 2];
+    /// value of a constant column (None = no constant column)
+    pub const CONST: [Option<f64>; 9] = [None, Some(0.0), Some(1.0), Some(-1.0), Some(2.0), Some(0.1), Some(100.1), Some(1.0 / 3.0), Some(0.7)];
+
+    pub fn run(job: &Job, seed: u64) {
+        let (n, p) = SHAPES[job.u("shape")];
+        let cst = CONST[job.u("const")];
+        let cst_col = if cst.is_some() { mc::choose(p) } else { 0 };
+        let alpha = mc::pick(&ALPHA);
+        let tol = mc::pick(&TOL);
+        let max_iter = mc::pick(&MAX_ITER);
+        let dy = mc::pick(&YLEN_DELTA);
+        let normalize = mc::pick(&[true, false]);
+        let ylen = n as i64 + dy;
+        if ylen < 0 {
+            return;
+        }
+        let xa = x_alphabet(seed);
+        // non-constant integer ramps (for n >= 2)
+        let mut x: Mat = (0..n).map(|i| (0..p).map(|j| xa[1] * ((i * (j + 2) + j) % 5) as f64 - (j as f64)).collect()).collect();
+        if let Some(c) = cst {
+            for r in x.iter_mut() {
+                r[cst_col] = c;
+            }
+        }
+        let y: Vec<f64> = (0..ylen as usize).map(|i| ((i * 3 + 1) % 4) as f64 - 1.0).collect();
+        let mut bad: Vec<&str> = Vec::new();
+        if alpha < 0.0 {
+            bad.push("alpha-negative");
+        }
+        if tol <= 0.0 {
+            bad.push("tol-not-positive");
+        }
+        if max_iter == 0 {
+            bad.push("max-iter-zero");
+        }
+        if n <= p {
+            bad.push("n-le-p");
+        }
+        if ylen as usize != n {
+            bad.push("length-mismatch");
+        }
+        // (with n = 1 every column is constant)
+        let const_cols: Vec<usize> = (0..p).filter(|&j| x.iter().all(|r| r[j] == x[0][j])).collect();
+        if !const_cols.is_empty() && normalize {
+            // the squares and sums of such a value are exact in binary floating point
+            let exact = const_cols.iter().all(|&j| (x[0][j] * 4096.0).fract() == 0.0 && x[0][j].abs() <= 4096.0);
+            bad.push(if exact { "constant-column-normalized(exact-square)" } else { "constant-column-normalized(rounded-square)" });
+        }
+        if bad.is_empty() {
+            mc::count("invalid_grid_valid_combinations_skipped");
+            return;
+        }
+        let key = bad.join("+");
+        let cfg = Cfg { alpha, l1_ratio: None, normalize, tol, shift: 0.0 };
+        // the call runs on its own thread so that a loop costs WATCHDOG_MS instead of the worker
+        let out = cases::fit_watched(&x, &y, &cfg, max_iter, &x, WATCHDOG_MS);
+        let what = || format!("Lasso::fit(X={:?}, y={:?}, alpha={}, normalize={}, tol={}, max_iter={})", x, y, alpha, normalize, tol, max_iter);
+        match out {
+            FitOut::Err(e) => {
+                mc::count("invalid_settings_rejected");
+                if bad.len() == 1 {
+                    mc::count("invalid_single_setting_rejected");
+                }
+                if bad.len() == 1 && bad[0].starts_with("constant-column") {
+                    mc::count("invalid_constant_column_rejected");
+                }
+                mc::nontrivial();
+                mc::outcome(mc::hash::h_str(&e));
+            }
+            FitOut::Ok(f) => {
+                mc::violation(format!("lasso.invalid:accepted:{}", key), format!("{}: invalid setting ({}) accepted, returned w={:?} b={}", what(), key, f.w, f.b));
+            }
+            FitOut::Panic(pi) => {
+                mc::violation(format!("lasso.invalid:panic:{}", key), format!("{}: invalid setting ({}) panics instead of returning Err: {}", what(), key, pi.brief()));
+            }
+            FitOut::Hang(_) => {
+                mc::violation(format!("lasso.invalid:loops:{}", key), format!("{}: invalid setting ({}): fit has not returned after {} ms (a rejected setting returns in microseconds) — it loops", what(), key, WATCHDOG_MS));
+            }
+        }
+        mc::describe(|| json!({"op": "Lasso::fit with invalid settings", "X": x, "y": y, "alpha": alpha, "tol": tol, "max_iter": max_iter, "normalize": normalize, "invalid": bad}));
+    }
+}
+
+/// Split the lattice of one (est, p, n) into jobs by fixing the leading `k` entries of X.
+/// `xalpha` = number of letters of the X alphabet used (4 = Σ4, 3 = Σ3, 2 = {0,1}).
+#[allow(clippy::too_many_arguments)]
+fn lattice_jobs(jobs: &mut Vec<Job>, est: &str, p: usize, n: usize, xalpha: usize, k: usize, cfg: &str, ymode: &str, watch: bool) {
+    let total = xalpha.pow(k as u32);
+    for code in 0..total {
+        let pre: Vec<usize> = (0..k).map(|i| (code / xalpha.pow((k - 1 - i) as u32)) % xalpha).collect();
+        // a job whose fixed prefix already makes the first column constant would be empty
+        if k >= n && pre[..n].iter().all(|v| *v == pre[0]) {
+            continue;
+        }
+        jobs.push(Job::new(
+            format!("{}-{}{}-p{}-n{}-s{}-{}-x{}", est, ymode, if watch { "-watched" } else { "" }, p, n, xalpha, cfg, pre.iter().map(|d| d.to_string()).collect::<String>()),
+            json!({"kind": "lat", "est": est, "p": p, "n": n, "xalpha": xalpha, "pre": pre, "cfg": cfg, "ymode": ymode, "watch": watch}),
+        ));
+    }
+}
+
+impl Harness for C08 {
+    fn id(&self) -> &'static str {
+        "C08"
+    }
+
+    fn plan(&self, tier: Tier, seed: u64) -> Plan {
+        let t = tier.is_thorough();
+        let mut jobs = Vec::new();
+        // ---- lattice. Lasso: free targets, all shifts. Elastic net, healthy class: zero-sum targets
+        //      (exact mean 0), no shift.
+        lattice_jobs(&mut jobs, "lasso", 1, 2, 4, 0, "full", "free", false);
+        lattice_jobs(&mut jobs, "enet", 1, 2, 4, 0, "noshift", "zerosum", false);
+        lattice_jobs(&mut jobs, "lasso", 1, 3, 4, 1, "full", "free", false);
+        lattice_jobs(&mut jobs, "enet", 1, 3, 4, 1, "noshift", "zerosum", false);
+        if !t {
+            lattice_jobs(&mut jobs, "lasso", 2, 3, 3, 3, "diag", "free", false);
+            lattice_jobs(&mut jobs, "enet", 2, 3, 3, 3, "noshift", "zerosum", false);
+        } else {
+            lattice_jobs(&mut jobs, "lasso", 1, 4, 4, 2, "full", "free", false);
+            lattice_jobs(&mut jobs, "enet", 1, 4, 4, 2, "noshift", "zerosum", false);
+            lattice_jobs(&mut jobs, "lasso", 2, 3, 4, 3, "full", "free", false);
+            lattice_jobs(&mut jobs, "enet", 2, 3, 4, 3, "noshift", "zerosum", false);
+            lattice_jobs(&mut jobs, "lasso", 2, 4, 3, 4, "diag", "free", false);
+            lattice_jobs(&mut jobs, "enet", 2, 4, 3, 4, "noshift", "zerosum", false);
+            lattice_jobs(&mut jobs, "lasso", 3, 4, 2, 5, "diag", "free", false);
+            lattice_jobs(&mut jobs, "enet", 3, 4, 2, 5, "noshift", "zerosum", false);
+        }
+        // ---- structured families (p <= 6, n <= 60)
+        let fam_ns = |p: usize| -> Vec<usize> {
+            if t {
+                (p + 1..=60).collect()
+            } else {
+                [p + 1, p + 2, 12, 31, 60].iter().cloned().filter(|n| *n > p).collect()
+            }
+        };
+        for fam in 0..families::N_FAMILIES {
+            for p in 1..=6usize {
+                jobs.push(Job::new(format!("lasso-family{}-p{}", fam, p), json!({"kind": "fam", "est": "lasso", "fam": fam, "p": p, "ns": fam_ns(p), "cfg": if t { "full" } else { "diag" }, "zero_mean": false})));
+                jobs.push(Job::new(format!("enet-family{}-p{}-zeromean", fam, p), json!({"kind": "fam", "est": "enet", "fam": fam, "p": p, "ns": fam_ns(p), "cfg": "noshift", "zero_mean": true})));
+            }
+        }
+        // ---- from here on: classes in which the unchanged library can loop; the library call runs under
+        //      the watchdog (a looping call leaves a spinning thread behind, so these jobs come last)
+        // elastic net with a non-zero target mean (free targets, shifts)
+        lattice_jobs(&mut jobs, "enet", 1, 2, 4, 1, "diag", "free", true);
+        if t {
+            lattice_jobs(&mut jobs, "enet", 1, 3, 4, 2, "diag", "free", true);
+            lattice_jobs(&mut jobs, "enet", 2, 3, 3, 3, "diag", "zerosum", true);
+        }
+        for fam in 0..families::N_FAMILIES {
+            for p in 1..=(if t { 4usize } else { 2 }) {
+                let ns: Vec<usize> = if t { vec![p + 1, p + 2, 12, 31, 60] } else { vec![p + 1, 12] };
+                jobs.push(Job::new(format!("enet-watched-family{}-p{}-shifted", fam, p), json!({"kind": "fam", "est": "enet", "fam": fam, "p": p, "ns": ns, "cfg": "diag", "zero_mean": true, "watch": true})));
+            }
+        }
+        // invalid settings
+        for shape in 0..(if t { invalid::SHAPES.len() } else { invalid::N_SHAPES_QUICK }) {
+            for c in 0..invalid::CONST.len() {
+                jobs.push(Job::new(format!("invalid-n{}-p{}-const{}", invalid::SHAPES[shape].0, invalid::SHAPES[shape].1, c), json!({"kind": "invalid", "shape": shape, "const": c})));
+            }
+        }
+        // constant targets
+        for est in ["lasso", "enet"] {
+            for design in 0..(if t { 4 } else { 2 }) {
+                for normalize in [true, false] {
+                    jobs.push(Job::new(format!("ctarget-{}-design{}-{}", est, design, if normalize { "norm" } else { "raw" }), json!({"kind": "ctarget", "est": est, "design": design, "normalize": normalize})));
+                }
+            }
+        }
+        for j in jobs.iter_mut() {
+            j.params["seed"] = json!(seed);
+        }
+        Plan {
+            jobs,
+            budget_s: if t { 2400 } else { 40 },
+            case_deadline_ms: std::env::var("C08_DEADLINE_MS").ok().and_then(|v| v.parse().ok()).unwrap_or(20_000),
+            floors: vec![("fits_ok", 1000)],
+            bounds: json!({}),
+        }
+    }
+
+    fn run(&self, job: &Job) {
+        let seed = job.params["seed"].as_u64().unwrap_or(0);
+        match job.kind() {
+            "lat" => run_lattice(job, seed),
+            "fam" => run_family(job, seed),
+            "invalid" => invalid::run(job, seed),
+            "ctarget" => run_ctarget(job, seed),
+            other => panic!("unknown job kind {}", other),
+        }
+    }
+
+    fn rule(&self) -> String {
+        "one execution = one (estimator, X, y, alpha, l1_ratio, normalize, tol, target shift) fitted by the real code; non-trivial = the fit returned coefficients for a non-constant target (or an invalid setting was rejected with Err); distinct = distinct digest of the returned coefficients and intercept rounded to 9 significant digits".into()
+    }
+
+    fn assumptions(&self) -> Vec<String> {
+        vec![
+            "\"standardised columns\" = (x - column mean) / population standard deviation (what the library documents and uses); the reference computes both in two passes".into(),
+            "\"moderately conditioned\" = 2-norm condition number of the design of the objective (standardised or raw columns) <= 1e4, decided by the reference one-sided Jacobi SVD".into(),
+            "Lasso and ElasticNet draw no random numbers (no RNG call site in src/linear)".into(),
+        ]
+    }
+}
+
+fn probe() {
+    use cases::FitOut;
+    let mut total = 0;
+    let mut bad = 0;
+    for fam in 0..4 {
+        for p in 1..=4usize {
+            for n in [p + 1, 12] {
+                for scale in 0..3 {
+                    for offset in 0..2 {
+                        for normalize in [true, false] {
+                            for alpha in [1e-3, 0.1, 1.0] {
+                                for ys in [1.0, 1e2, 1e4] {
+                                    let (x, y) = families::build(fam, n, p, scale, offset, 0, 0);
+                                    let y: Vec<f64> = y.iter().map(|v| v * ys).collect();
+                                    let cfg = Cfg { alpha, l1_ratio: None, normalize, tol: 1e-4, shift: 0.0 };
+                                    let des = refs::design(&x, normalize);
+                                    let cond = refs::cond(&des.z);
+                                    if cond > 1e4 {
+                                        continue;
+                                    }
+                                    total += 1;
+                                    let r = match cases::fit_watched(&x, &y, &cfg, 1000, &x, 1000) {
+                                        FitOut::Ok(f) => {
+                                            if f.w.iter().all(|v| v.is_finite()) {
+                                                continue;
+                                            }
+                                            format!("Ok NONFINITE w={:?} b={}", f.w, f.b)
+                                        }
+                                        FitOut::Err(e) => format!("Err {}", e),
+                                        FitOut::Panic(p) => format!("PANIC {}", p.brief()),
+                                        FitOut::Hang(_) => "HANG".to_string(),
+                                    };
+                                    bad += 1;
+                                    println!("fam={} p={} n={} scale={} offset={} normalize={} alpha={} yscale={} cond={:.1} -> {}", fam, p, n, scale, offset, normalize, alpha, ys, cond, r);
+                                    if bad > 40 {
+                                        std::process::exit(0);
+                                    }
+                                }
+                            }
+                        }
+                    }
+                }
+            }
+        }
+    }
+    println!("total {} bad {}", total, bad);
+    std::process::exit(0);
+}
+
+fn main() {
+    if std::env::var("C08_PROBE").is_ok() {
+        probe();
+    }
+    mc::main(C08)
+}
+
+#[allow(dead_code)]
+fn _v(_: Value) {}
